@@ -116,6 +116,17 @@ def r3(ctx):
             ctx.require(guarded, b, 'forward-dedup', 'an id is assigned only to a token that is not in the vocabulary yet (line %d)' % t.span['line'],
                         'Vocab::build inserts every token under a fresh id (line %d) without skipping tokens it has already seen: a token that occurs twice is '
                         're-assigned an id that the next new token also receives -- two tokens share one id' % t.span['line'], t.span)
+        # the reverse map is written only together with a NEW forward entry: an unconditional `reverse.insert(next_id, token)` leaves a stale
+        # entry at the next free id whenever the token was a repeat (it survives when the repeat is the last token: id_to_token(vocab_size) is Some)
+        rins = [t for t in b.calls(r'HashMap::insert$') if cfg.innermost_loop(b, t.bb) is not None and t.args[0].place is not None and
+                re.search(r'HashMap<u32, Token>', b.local_ty(t.args[0].place.local))]
+        fmaps = [l for l in range(len(b.locals)) if re.search(r'^std::collections::HashMap<Token, u32>$', b.local_ty(l))]
+        for t in rins:
+            guarded = any(pol is False and match(core(tt), Call('HashMap::contains_key', ANY, ANY)) for tt, pol, g in atoms_at(b, t.bb)) or \
+                any(n_ == {'Vacant'} or n_ == {'None'} for tt, n_ in variant_facts_at(b, t.bb))
+            ctx.require(guarded, b, 'reverse-dedup', 'the reverse entry is written only for a token that is new to the vocabulary (line %d)' % t.span['line'],
+                        'Vocab::build writes the reverse entry (line %d) for every token, also for a repeated one: the stale entry sits at the next free id, and when the '
+                        'repeat is the last token it stays -- id_to_token(vocab_size) returns a token' % t.span['line'], t.span)
         raise AnchorMissing('Vocab::build forward / reverse map construction')
     c, ch, names, src = fwd
     ctx.require(names == ['unique', 'enumerate', 'map', 'collect'][:len(names)] and names[:3] == ['unique', 'enumerate', 'map']
@@ -354,3 +365,25 @@ def r9(ctx):
     if n < 50:
         raise AnchorMissing('bodies of src/tokenization.rs (found %d)' % n)
     ctx.ok(None, '%d bodies of src/tokenization.rs inspected, %d with debug-only regions, no state change inside them' % (n, regions))
+
+
+@rule('C04', 'R-C04-10', 'T15 TYPE (tokens are byte strings, not text)',
+      'id_to_token of the BPE, byte and vocabulary tokenizers returns the raw bytes of the table entry: nothing on the way validates or '
+      'converts them as UTF-8 (String::from_utf8, str::from_utf8, de_tokenize). A single byte >= 0x80 or a merge that ends inside a multi-byte '
+      'character is a token of the vocabulary but not valid UTF-8 on its own; a lookup through a String loses it while get_vocab still lists it')
+def r10(ctx):
+    n = 0
+    cands = [b for b in ctx.facts.bodies if b.path.endswith('::id_to_token') and b.kind != 'Closure' and b.impl_trait and norm_path(b.impl_trait).endswith('Tokenize')
+             and b.file() == 'src/tokenization.rs' and 'Huggingface' not in str(b.impl_self) and 'Duration' not in str(b.impl_self)]
+    for b in cands:
+        from rules.common import closures_in
+        for x in [b] + closures_in(ctx, b):
+            ctx.stats['bodies_inspected'].add(x.path)
+            n += 1
+            for t in x.calls(r'String::from_utf8(_lossy)?$|str::from_utf8$|::de_tokenize$|String::into_bytes$'):
+                ctx.fail(b, 'token-through-text|' + str(b.impl_self)[:40], '%s of %s goes through text (`%s`, line %d): tokens that are not valid UTF-8 on their own (bytes >= 0x80, '
+                         'merges ending inside a character) get no result although they are listed in the vocabulary' % (
+                             'id_to_token', (b.impl_self or '?')[:60], (t.callee_res() or '').rsplit('::', 2)[-1], t.span['line']), t.span)
+    if len(cands) < 3:
+        raise AnchorMissing('id_to_token of the BPE, byte and vocabulary tokenizers (found %d)' % len(cands))
+    ctx.ok(None, '%d id_to_token bodies return table bytes without a text round trip' % n)
